@@ -64,6 +64,9 @@ func ReadFile(r io.Reader) (File, []string, error) {
 				if err := expectAnyOfNext(tr, tokenKindCloseSquare); err != nil {
 					return f, warnings, err
 				}
+				// like [opcode(..)]: the line break after the attribute does not
+				// end the doc comment written above it
+				optNewline(tr)
 			}
 			continue
 		case tokenKindEnum:
